@@ -476,6 +476,8 @@ type Check struct {
 	// BrokenProofSearch is run instead of (in addition to) Run when the proof obligations or the
 	// regenerated facts no longer check: a directed search for a concrete failing input.
 	Search func(c *Ctx) error
+	// After runs once when the whole check (all workers) is over, in the process that is not a worker: housekeeping.
+	After func()
 }
 
 var Checks = map[string]*Check{}
